@@ -26,7 +26,7 @@ import textwrap
 
 REPO = os.environ.get("VERIF_REPO", "/repo")
 ROOT = os.path.dirname(os.path.dirname(os.path.abspath(__file__)))
-GEN = os.path.join(ROOT, "lean", "Tdgl", "Generated")
+GEN = os.path.join(os.environ.get("VERIF_LEAN_DIR") or os.path.join(ROOT, "lean"), "Tdgl", "Generated")
 
 
 class Unsupported(Exception):
@@ -539,10 +539,28 @@ def gen_adapt():
     # where the change of |psi|^2 is recorded for the windowed mean: once per solve step (in `update`, outside the
     # screening loop), and what is recorded
     rec = []
-    for fn in class_funcs(tree, "TDGLSolver"):
+    funcs = class_funcs(tree, "TDGLSolver")
+    for fn in funcs:
         for in_loop, txt in inlined_calls(fn, "self.d_psi_sq_vals.append("):
             where = "update" if fn.name == "update" else f"method {fn.name}"
-            rec.append(f"{where}, {'inside a loop' if in_loop else 'once per call'}: {txt}")
+            # a helper that appends one of its own parameters: look through it to its call sites (the statement is
+            # then reported where the helper is called, with the argument that is passed)
+            arg = txt[len("self.d_psi_sq_vals.append("):-1]
+            params = [a.arg for a in fn.args.args if a.arg != "self"]
+            sites = []
+            if fn.name != "update" and arg in params and not in_loop:
+                for caller in funcs:
+                    for c_loop, c_txt in inlined_calls(caller, f"self.{fn.name}("):
+                        call = ast.parse(c_txt).body[0].value
+                        bound = {p_: ast.unparse(a_) for p_, a_ in zip(params, call.args)}
+                        bound.update({k_.arg: ast.unparse(k_.value) for k_ in call.keywords})
+                        if arg in bound:
+                            cw = "update" if caller.name == "update" else f"method {caller.name}"
+                            sites.append(f"{cw}, {'inside a loop' if c_loop else 'once per call'}: self.d_psi_sq_vals.append({bound[arg]})")
+            if sites:
+                rec += sites
+            else:
+                rec.append(f"{where}, {'inside a loop' if in_loop else 'once per call'}: {txt}")
     record = " ; ".join(sorted(rec))
     retry = None
     cond = None
@@ -634,6 +652,34 @@ def gen_pins():
     out["loop_order"] = " ; ".join(order)
     after = [ast.unparse(n.test) for n in ast.walk(f) if isinstance(n, ast.If) and "save and i % self.options.save_every" in ast.unparse(n.test)]
     out["final_save"] = " ; ".join(after)
+    # --- the refresh decision for a time-dependent potential (C10, model Tdgl/Refresh.lean): the comparison, what is done
+    #     when it says "changed", that the new potential is stored AFTER that, and every place that stores it ---
+    u = find_func(st, "TDGLSolver", "update")
+    dec = []
+
+    def walk_blocks(body):
+        for i, stn in enumerate(body):
+            if isinstance(stn, ast.If) and any(ast.unparse(x.value).endswith("set_link_exponents(current_A_applied)") if isinstance(x, ast.Expr) else False for x in stn.body):
+                dec.append("if " + ast.unparse(stn.test) + ": " + " ; ".join(ast.unparse(x) for x in stn.body if isinstance(x, ast.Expr)))
+            for fld in ("body", "orelse"):
+                sub = getattr(stn, fld, None)
+                if isinstance(sub, list) and not isinstance(stn, (ast.FunctionDef,)):
+                    walk_blocks(sub)
+
+    walk_blocks(u.body)
+    flat = [ast.unparse(n) for n in ast.walk(u) if isinstance(n, (ast.Assign, ast.Expr))]
+    order = "?"
+    try:
+        lines_ = {ast.unparse(n): n.lineno for n in ast.walk(u) if isinstance(n, (ast.Assign, ast.Expr))}
+        order = "refresh before commit" if lines_["operators.set_link_exponents(current_A_applied)"] < lines_["self.current_A_applied = current_A_applied"] else "commit before refresh"
+    except KeyError:
+        order = "refresh or commit statement not found"
+    stores = []
+    for fn in class_funcs(st, "TDGLSolver"):
+        for n in ast.walk(fn):
+            if isinstance(n, ast.Assign) and any("self.current_A_applied" in ast.unparse(t) for t in n.targets):
+                stores.append(f"{fn.name}: {ast.unparse(n)}")
+    out["refresh"] = " | ".join(dec) + " || " + order + " || stored in: " + " ; ".join(sorted(stores))
     lines = [HEADER.format(src="tdgl/solver/solver.py, tdgl/solver/runner.py (source pins)", sha=sha_of(solver) + "/" + sha_of(runner)), "namespace Tdgl.Gen\n"]
     for k, v in out.items():
         lines.append(f"def pin_{k} : String := {lean_str(v)}")
